@@ -83,6 +83,8 @@ func (r *Route) addTarget(service string, targetURL *url.URL, fixedWeight float6
 		if opts["redirect"] != "" {
 			t.RedirectCode, err = strconv.Atoi(opts["redirect"])
 			if err != nil {
+				// Atoi returns the nearest int on overflow: do not keep it
+				t.RedirectCode = 0
 				log.Printf("[ERROR] redirect status code should be numeric in 3xx range. Got: %s", opts["redirect"])
 			} else if t.RedirectCode < 300 || t.RedirectCode > 399 {
 				t.RedirectCode = 0
